@@ -149,6 +149,10 @@ def gen(seed, run, tier='quick'):
     kinds = list(w)
     weights = [w[k] for k in kinds]
     n_ops = rng.randrange(3, (2 * MAX_OPS if deep else MAX_OPS) + 1)
+    if rng.random() < 0.02:
+        # a long-lived process: a few runs are several times longer than
+        # the rest (bounded caches evict, counters grow)
+        n_ops = rng.randrange(150, 300)
     ops = []
     used_primes = set()
     big_p = rng.choice([0, 0, 0, 0.05, 0.15])
